@@ -119,6 +119,26 @@ def main(argv_tier=None, replay_path=None):
             model["runs"].append({"scheme": s, "cfg": gi, "profiles": len(profs), "classes": n2, "distinct": r.distinct})
             for members in random_classes(s, cfg, rnd, tr):
                 classes.append((s, gi, cfg, members))
+    # large classes (17 000 .. 32 768 postings: thresholds of batching, caches and counter widths lie far above the model's bounds)
+    for s in sc.SCHEMES:
+        d = sc.default_config(s)
+        base = [100] * 170
+        if s in ("CJJ14.PiBas", "DP17.Pi"):
+            ms = [base, [17000], compositions(rnd, 17000, 40), [50] * 340]
+        elif s in ("CT14.Pi", "ANSS16.Scheme3"):
+            ms = [base, [20000], compositions(rnd, 30000, 60), [32768], [41] * 400]
+        elif s == "CJJ14.PiPack":
+            B = d["param_B"]
+            nb = sum(-(-x // B) for x in base)
+            ms = [base, [B * nb], [1] * nb]
+        elif s == "CGKO06.SSE1":
+            d = dict(d, param_s=32768, param_dictionary_size=256)
+            ms = [base, [17000], [1], [5] * 200]
+        elif s in ("CJJ14.PiPtr", "CJJ14.Pi2Lev"):
+            ms = [base, list(base)]            # the same multiset with other keywords and identifiers
+        else:
+            continue
+        classes.append((s, -6, d, ms))
     import sse_models
     lruns, ltot = sse_models.levels_runs(tr)      # LevelFits for every choice of the random dummy keywords
     model["runs"] += lruns
